@@ -5,6 +5,7 @@ CONSTANTS
   InitRestated = TRUE
   OriginFromSuper = FALSE
   AllowModifyBusy = TRUE
+  SigCheck = FALSE
   Parent <- Chain3
   Mode = "dyn"
   QSels = {{}}
